@@ -78,6 +78,7 @@ type Gen struct {
 	MaxShards   int
 	MaxTargets  int
 	MultiCycle  bool // draw 1-3 consecutive cycles and shards that become ready later
+	Thorough    bool // larger shapes: up to 7 shards and 12 targets
 }
 
 func sizes(lim int64) []int64 {
@@ -118,6 +119,9 @@ func Generate(tp *core.Tape, g Gen) *Scenario {
 		lim = sc.MaxHead
 	}
 	nT := 1 + tp.Weighted("targets", 2, 3, 4, 4, 3, 2, 1, 1)
+	if g.Thorough && tp.Bool("more_targets", 1, 3) {
+		nT += tp.Choose("extra_targets", 5)
+	}
 	if g.MaxTargets > 0 && nT > g.MaxTargets {
 		nT = g.MaxTargets
 	}
@@ -129,6 +133,9 @@ func Generate(tp *core.Tape, g Gen) *Scenario {
 			rs.ScaleErrFinal = tp.Bool("scale_err_final", 1, 6)
 		}
 		nS := 1 + tp.Weighted("shards", 2, 4, 4, 2, 1)
+		if g.Thorough && tp.Bool("more_shards", 1, 4) {
+			nS += tp.Choose("extra_shards", 3)
+		}
 		if g.MaxShards > 0 && nS > g.MaxShards {
 			nS = g.MaxShards
 		}
